@@ -28,6 +28,7 @@ class VFS:
     def __init__(self):
         self.files = {}
         self.links = {}        # symbolic links: path -> target path (absolute)
+        self.link_mtime = {}   # the link's own (lstat) modification time; default 1
         self.dirs = {ROOT}
         self.clock = 1000
         self.ops = 0
@@ -100,10 +101,20 @@ def _stat_result(mode, size, mtime):
     return os.stat_result((mode, 0, 0, 1, 0, 0, size, mtime, mtime, mtime))
 
 
+def _resolve(vp):
+    hops = 0
+    while vp in V.links and hops < 8:
+        vp = V.links[vp]
+        hops += 1
+    return vp
+
+
 def f_stat(p, *a, **k):
     vp = virt(p)
     if vp is None or V is None:
         return REAL["stat"](p, *a, **k)
+    if k.get("follow_symlinks", True) is False:
+        return f_lstat(p)
     hops = 0
     while vp in V.links and hops < 8:
         vp = V.links[vp]
@@ -195,7 +206,7 @@ def f_listdir(p="."):
         raise FileNotFoundError(2, "No such file or directory (vfs)", vp)
     pre = vp.rstrip("/") + "/"
     names = set()
-    for f in list(V.files) + list(V.dirs):
+    for f in list(V.files) + list(V.dirs) + list(V.links):
         if f.startswith(pre):
             names.add(f[len(pre):].split("/")[0])
     return sorted(names)
@@ -290,16 +301,20 @@ class _DirEntry:
         self._isdir = isdir
 
     def is_dir(self, follow_symlinks=True):
+        if self.path in V.links:
+            return follow_symlinks and V.is_dir(_resolve(self.path))
         return self._isdir
 
     def is_file(self, follow_symlinks=True):
+        if self.path in V.links:
+            return follow_symlinks and _resolve(self.path) in V.files
         return not self._isdir
 
     def is_symlink(self):
-        return False
+        return self.path in V.links
 
     def stat(self, follow_symlinks=True):
-        return f_stat(self.path)
+        return f_stat(self.path) if follow_symlinks else f_lstat(self.path)
 
     def inode(self):
         return 0
@@ -338,7 +353,7 @@ def f_lstat(p, *a, **k):
     if vp is None or V is None:
         return REAL["lstat"](p, *a, **k)
     if vp in V.links:
-        return _stat_result(0o120777, len(V.links[vp]), 1)
+        return _stat_result(0o120777, len(V.links[vp]), V.link_mtime.get(vp, 1))
     return f_stat(p)
 
 
